@@ -20,9 +20,10 @@ static json build(const std::string& f, const std::string& shape, long n) {
     if (shape == "tstr") v = json(std::string((size_t)n, 'a'));
     else if (shape == "bstr") v = json(byte_string_arg, std::vector<uint8_t>((size_t)n, 1));
     else if (shape == "arr") { v = json(json_array_arg); v.reserve((size_t)n); for (long i = 0; i < n; ++i) v.push_back(json::null()); }
+    else if (shape == "strs") { v = json(json_array_arg); v.reserve((size_t)n); for (long i = 0; i < n; ++i) { std::string t(100, (char)('a' + i % 26)); std::string k = key5(i); t.replace(0, 5, k); v.push_back(json(t)); } }   // 100 bytes each, all different
     else if (shape == "map") { v = json(json_object_arg); for (long i = 0; i < n; ++i) v.try_emplace(key5(i), json::null()); }
     else { v = json(json_object_arg); v.try_emplace(std::string((size_t)n, 'k'), json::null()); }
-    if (f == "bson" && (shape == "tstr" || shape == "bstr" || shape == "arr")) { json d(json_object_arg); d.try_emplace("a", std::move(v)); return d; }
+    if (f == "bson" && (shape == "tstr" || shape == "bstr" || shape == "arr" || shape == "strs")) { json d(json_object_arg); d.try_emplace("a", std::move(v)); return d; }
     return v;
 }
 static std::string observe(const json& j0, const std::string& f, const std::string& shape, long& size);
@@ -60,11 +61,11 @@ static void expand(const mj::Value& prog, std::vector<uint8_t>& out) {
 }
 static std::string observe(const json& j0, const std::string& f, const std::string& shape, long& size) {
     const json* j = &j0;
-    if (f == "bson" && (shape == "tstr" || shape == "bstr" || shape == "arr")) { if (!j0.is_object() || j0.size() != 1 || !j0.contains("a")) { size = -1; return "not-wrapped"; } j = &j0.at("a"); }
+    if (f == "bson" && (shape == "tstr" || shape == "bstr" || shape == "arr" || shape == "strs")) { if (!j0.is_object() || j0.size() != 1 || !j0.contains("a")) { size = -1; return "not-wrapped"; } j = &j0.at("a"); }
     if (shape == "key") { if (!j->is_object() || j->size() != 1) { size = -1; return "not-one-member"; } size = (long)j->object_range().begin()->key().size(); return "key"; }
     if (j->is_string()) { size = (long)j->as_string_view().size(); return "tstr"; }
     if (j->is_byte_string()) { size = (long)j->as_byte_string_view().size(); return "bstr"; }
-    if (j->is_array()) { size = (long)j->size(); return "arr"; }
+    if (j->is_array()) { size = (long)j->size(); return shape == "strs" ? "strs" : "arr"; }
     if (j->is_object()) { size = (long)j->size(); return "map"; }
     size = -1; return "other";
 }
@@ -102,21 +103,25 @@ int main(int argc, char** argv) {
             if (f == "cbor") {
                 auto dec = [](const std::vector<uint8_t>& b) { return cbor::decode_cbor<json>(b); };
                 enc_one(idx, c, "dom", v, [](const json& j, std::vector<uint8_t>& b) { cbor::encode_cbor(j, b); }, dec);
+                enc_one(idx, c, "ostream", v, [](const json& j, std::vector<uint8_t>& b) { std::ostringstream os; cbor::encode_cbor(j, os); std::string s = os.str(); b.assign(s.begin(), s.end()); }, dec);
                 enc_one(idx, c, "stream", v, [](const json& j, std::vector<uint8_t>& b) { cbor::cbor_bytes_encoder e(b); j.dump(e); }, dec);
                 enc_one(idx, c, "packed", v, [](const json& j, std::vector<uint8_t>& b) { cbor::encode_cbor(j, b, cbor::cbor_options{}.pack_strings(true)); }, dec);
                 enc_one(idx, c, "undeclared", v, [](const json& j, std::vector<uint8_t>& b) { cbor::cbor_bytes_encoder e(b); feed_undeclared(e, j); e.flush(); }, dec);
             } else if (f == "msgpack") {
                 auto dec = [](const std::vector<uint8_t>& b) { return msgpack::decode_msgpack<json>(b); };
                 enc_one(idx, c, "dom", v, [](const json& j, std::vector<uint8_t>& b) { msgpack::encode_msgpack(j, b); }, dec);
+                enc_one(idx, c, "ostream", v, [](const json& j, std::vector<uint8_t>& b) { std::ostringstream os; msgpack::encode_msgpack(j, os); std::string s = os.str(); b.assign(s.begin(), s.end()); }, dec);
                 enc_one(idx, c, "stream", v, [](const json& j, std::vector<uint8_t>& b) { msgpack::msgpack_bytes_encoder e(b); j.dump(e); }, dec);
             } else if (f == "ubjson") {
                 auto dec = [](const std::vector<uint8_t>& b) { return ubjson::decode_ubjson<json>(b); };
                 enc_one(idx, c, "dom", v, [](const json& j, std::vector<uint8_t>& b) { ubjson::encode_ubjson(j, b); }, dec);
+                enc_one(idx, c, "ostream", v, [](const json& j, std::vector<uint8_t>& b) { std::ostringstream os; ubjson::encode_ubjson(j, os); std::string s = os.str(); b.assign(s.begin(), s.end()); }, dec);
                 enc_one(idx, c, "stream", v, [](const json& j, std::vector<uint8_t>& b) { ubjson::ubjson_bytes_encoder e(b); j.dump(e); }, dec);
                 enc_one(idx, c, "undeclared", v, [](const json& j, std::vector<uint8_t>& b) { ubjson::ubjson_bytes_encoder e(b); feed_undeclared(e, j); e.flush(); }, dec);
             } else {
                 auto dec = [](const std::vector<uint8_t>& b) { return bson::decode_bson<json>(b); };
                 enc_one(idx, c, "dom", v, [](const json& j, std::vector<uint8_t>& b) { bson::encode_bson(j, b); }, dec);
+                enc_one(idx, c, "ostream", v, [](const json& j, std::vector<uint8_t>& b) { std::ostringstream os; bson::encode_bson(j, os); std::string s = os.str(); b.assign(s.begin(), s.end()); }, dec);
                 enc_one(idx, c, "stream", v, [](const json& j, std::vector<uint8_t>& b) { bson::bson_bytes_encoder e(b); j.dump(e); }, dec);
             }
         } else {
